@@ -167,11 +167,11 @@ THMinInd == {Th(Q34, 2, 1, Q0, 0), Th(Q34, 2, 2, Q0, 0), Th(Q2, 2, 1, Q0, 0), Th
 InstMinInd == [maxlen |-> 6, minqs |-> {20}, samples |-> 3, fm |-> Plain, cv |-> SubSeq(CVSingle, 1, 3), th |-> THMinInd, seed |-> <<>>]
 InstTiny == [maxlen |-> 2, minqs |-> {0, 20, 30}, samples |-> 2, fm |-> FMQuick, cv |-> SubSeq(CVFilter, 1, 3), th |-> THJoint, seed |-> <<>>]
 
-(* ---- option boundary values (2 samples, plain reads at position 1, tables of up to 6 reads) ----------------------------- *)
+(* ---- option boundary values (2 samples, plain reads at position 1, tables of up to 5 reads) ----------------------------- *)
 (* --min-ind 0 (population-only filtering) and n_samples + 1 (nothing can be listed); 1 and n_samples are in THQuick.         *)
 THBoundary == {Th(im, id, 0, mf, md) : im \in {Q0, Q2}, id \in {0, 2}, mf \in {Q0, Q4}, md \in {0, 2}}
               \cup {Th(Q0, 0, 3, Q0, 0), Th(Q2, 2, 3, Q4, 2), Th(Q0, 0, 1, Q0, 0), Th(Q0, 0, 2, Q0, 2), Th(Q2, 2, 2, Q0, 0), ThDefault}
-InstBoundary == [maxlen |-> 6, minqs |-> {20}, samples |-> 2, fm |-> Plain, cv |-> SubSeq(CVSingle, 1, 3), th |-> THBoundary, seed |-> <<>>]
+InstBoundary == [maxlen |-> 5, minqs |-> {20}, samples |-> 2, fm |-> Plain, cv |-> SubSeq(CVSingle, 1, 3), th |-> THBoundary, seed |-> <<>>]
 
 (* ---- deep tables: 30-60 reads per sample, multi-allelic, ALT mean frequencies near-tied but unequal -------------------- *)
 (* A seed of identical plain reads covering both positions (position 1: A ref, C, G; position 2: C ref, A, T), then up to     *)
